@@ -187,19 +187,60 @@ class ParseFailure(Exception):
     pass
 
 
+class _CachingParser:
+    """Stands in for the compiler's Lark object: same parse(text) results, served from the parse cache.  This lets the REAL public
+    entry point Compiler.compile_c_stmt run in full (whatever it does to the text before or after parsing) at cache speed."""
+    def __init__(self, real, use_cache=True):
+        self.real = real
+        self.use_cache = use_cache
+
+    def parse(self, text, *a, **k):
+        if a or k or not self.use_cache:
+            return self.real.parse(text, *a, **k)
+        got = cache_get("stmt:" + text)
+        if got is not None:
+            if got[0] == "err":
+                raise ParseFailure(got[1])
+            return got[1]
+        try:
+            ast = self.real.parse(text)
+        except Exception as e:
+            cache_put("stmt:" + text, ("err", f"{type(e).__name__}: {str(e)[:200]}"))
+            raise
+        cache_put("stmt:" + text, ("ok", ast))
+        return ast
+
+    def __getattr__(self, name):
+        return getattr(self.real, name)
+
+
 def compile_stmt(code, fmt="READ_STATEMENTS", hyb=None, use_cache=True):
-    """compile_c_stmt on the real compiler; always leaves the transformer reset (the harness, not the
-    property under test, owns that here).  -> ('ok', text, meta) | ('exc', repr)"""
+    """The real Compiler.compile_c_stmt (its parser object wrapped by the parse cache); always leaves the transformer reset (the
+    harness, not the property under test, owns that here).  -> ('ok', text, meta) | ('exc', repr)"""
     c = compiler(fmt)
     c.transformer.reset()
     if hyb is not None:
         c.transformer.il_ops_holder.hybrid_op_count = hyb
+    real_parser = c.parser
     try:
-        ast = parse_stmt(code, use_cache)
-        text = c.transformer.transform(ast)
-        meta = c.transformer.ext.get_meta()
-        return ("ok", text, meta)
+        c.parser = _CachingParser(real_parser, use_cache)
+        try:
+            text = c.compile_c_stmt(code)
+        finally:
+            c.parser = real_parser
     except Exception as e:
+        c.transformer.reset()
         return ("exc", f"{type(e).__name__}: {str(e)[:200]}")
+    # the attribute list is not part of compile_c_stmt's result: second pass through the transformer for the companion record
+    meta = None
+    try:
+        c.transformer.reset()
+        if hyb is not None:
+            c.transformer.il_ops_holder.hybrid_op_count = hyb
+        c.transformer.transform(parse_stmt(code, use_cache))
+        meta = c.transformer.ext.get_meta()
+    except Exception:  # noqa
+        meta = []
     finally:
         c.transformer.reset()
+    return ("ok", text, meta)
